@@ -437,6 +437,9 @@ def _read_o_file(cfg_path, name, needed_keys, intern, version, im):
                 w2 = specs[4]
                 T = intern[name]["T"]
                 start_read = intern[name]["spec"][quarks][off][w][w2]["start"]
+                # check, if the correlator is in fact printed completely
+                if (start_read + T + 1 > len(lines)):
+                    raise Exception("EOF before end of correlator data! Maybe " + file + " is corrupted?")
                 deltas = []
                 for line in lines[start_read:start_read + T]:
                     floats = list(map(float, line.split()))
